@@ -488,6 +488,8 @@ def oracle(inst):
                            if all(a[k] == v for k, v in d.items())):
                     bad.append((o, 'picked assignment has a non-model '
                                 'extension'))
+                elif not set(d) >= set(args or []):
+                    bad.append((o, 'picked assignment lacks a care variable'))
             else:
                 bad.append((o, 'pick failed'))
             continue
